@@ -63,14 +63,19 @@ DevErrShortcut(ev, out) ==
         X  == [i \in DOMAIN B |-> IF Bad(A[i]) \/ Bad(B[i]) THEN OffGrid ELSE ScBin(ev.op, cls, A[i], B[i])]
         Z  == {i \in DOMAIN B : IsErrV(X[i])}
         rest == \A i \in DOMAIN B \ Z : Bad(X[i]) \/ Bad(R[i]) \/ X[i] = R[i]
+        zero1(i) == ev.op # "MINUS" /\ A[i] = 0 /\ R[i] = 0
+        equal(i) == A[i] = B[i] /\ R[i] = (IF ev.op = "DIVIDE" THEN one ELSE 0)
+        binf(i)  == A[i] = Inf /\ B[i] = Inf /\ R[i] = Inf
+        skips    == fors[edges[ev.a].f].rule = "I" \/ fors[edges[ev.b].f].rule = "I"
     IN IF ~rest \/ Z = {} THEN ""
-       ELSE IF ev.op # "MINUS" /\ \A i \in Z : A[i] = 0 /\ R[i] = 0
-            THEN ev.op \o ":shortcut:first-operand-zero"
-       ELSE IF \A i \in Z : A[i] = B[i] /\ R[i] = (IF ev.op = "DIVIDE" THEN one ELSE 0)
-            THEN ev.op \o ":shortcut:equal-operands"
-       ELSE IF \A i \in Z : A[i] = Inf /\ B[i] = Inf /\ R[i] = Inf
-            THEN ev.op \o ":shortcut:both-infinite"
-       ELSE ev.op \o ":invalid-point-not-detected"
+       ELSE IF \A i \in Z : zero1(i) THEN ev.op \o ":shortcut:first-operand-zero"
+       ELSE IF \A i \in Z : equal(i) THEN ev.op \o ":shortcut:equal-operands"
+       ELSE IF \A i \in Z : binf(i)  THEN ev.op \o ":shortcut:both-infinite"
+       \* a mixture: every invalid point shows one of the three shortcuts above, or
+       \* the operands live in an identity-reduced forest (skipped identity levels)
+       ELSE IF skips \/ \A i \in Z : zero1(i) \/ equal(i) \/ binf(i)
+            THEN ev.op \o ":invalid-point-not-detected"
+       ELSE ""
 
 \* DIST_INC with an identity-reduced argument forest is wrong wherever the
 \* argument skips an identity level (the incremented value is re-expanded with
@@ -169,9 +174,20 @@ SameFunction(t, res) ==
 
 \* C01: within one forest, equal identity <=> equal function, for the new
 \* result against every other held edge
+\* C01, structure: the recorded node count of a result in a set forest (in its
+\* original variable order) is the canonical size of the function it denotes
+SizeViol(res) ==
+    IF res.f < 0 \/ ~Has(res, "nc") \/ ~Has(res, "fn") \/ ~LiveForest(res.f) THEN {}
+    ELSE LET F == fors[res.f] IN
+         IF F.rel \/ ~(F.lab \in {"MT", "EP"}) \/ ~(F.rule \in {"F", "Q"})
+            \/ F.l2v # [k \in 1..Len(F.l2v) |-> k] \/ HasOff(res.fn) THEN {}
+         ELSE IF res.nc # CanonSize(res.fn, FDS(F), F.lab = "EP", F.rule = "F")
+              THEN {V("C01", "node-count-not-canonical")} ELSE {}
+
 CanonViol(s, res) ==
     IF res.f < 0 \/ ~Has(res, "id") \/ ~Has(res, "fn") THEN {}
-    ELSE LET others == {t \in DOMAIN edges \ {s} :
+    ELSE SizeViol(res) \cup
+         LET others == {t \in DOMAIN edges \ {s} :
                             /\ edges[t].f = res.f
                             /\ t \in DOMAIN ids /\ ids[t] # << >>
                             /\ (HasOff(edges[t].fn) \/ HasOff(res.fn)) => (Has(res, "fh") /\ Len(ids[t]) > 5)}
